@@ -157,6 +157,7 @@ def all_ops(nifs):
         for k in range(nifs + 1):
             ops += ["dn%s:%d" % (w, k), "up%s:%d" % (w, k)]
         ops += ["de%s:0" % w, "xa%s:0" % w, "xu%s:0" % w]   # xa/xu: down/up with the m.mu lock probe
+        ops += ["xg%s:0" % w, "xh%s:0" % w]                  # xg/xh: down/up with the gap reader (one critical section?)
         ops += ["SU%s:0" % w, "SU%s:3" % w]                      # switchover naming an unknown group first / last
         ops += ["tk%s:%d" % (w, b) for b in (0, 2, 5, 9, 13)]   # checkPeerTimeout: not connected (+ timeout), old hb, skew, both
     return ops
@@ -177,7 +178,7 @@ def random_walk(rng, nifs, length):
             ops += [rng.choice(["pl" + w, "pt" + w, "tk%s:%d" % (w, rng.randrange(16))]), "sd" + o, "dl%s:999" % w, "dl%s:999" % o]
         elif r < 0.58:    # flap an interface
             k = rng.randrange(nifs + 1)
-            ops += [rng.choice(["dn", "dn", "de", "up", "xa", "xu"]) + "%s:%d" % (w, k) for _ in range(rng.randint(1, 3))]
+            ops += [rng.choice(["dn", "dn", "de", "up", "xa", "xu", "xg", "xh"]) + "%s:%d" % (w, k) for _ in range(rng.randint(1, 3))]
         elif r < 0.64:
             ops += [rng.choice(["SW", "SW", "sw"]) + "%s:%d" % (w, rng.randint(0, 1))]
         elif r < 0.68:    # partition: both lose, drop everything in flight
@@ -230,6 +231,15 @@ def gen_cases(rng, tier, budget):
                 cases.append(c + " " + " ".join(warm(k) + ["sd0", "dl1:9", "dl0:9", "sd1", "dl0:9", "dl1:9", "pl0", "pl1",
                                                         "sd1", "dl0:9", "dl1:9", "sd0", "dl1:9", "dl0:9"]))
             cases.append(c + " " + " ".join(random_walk(rng, 1, 60)))
+    # (8) gap reader: every down/up order on two tracked interfaces of one group, moving and non-moving notifications
+    for c in (cfg(1, 200, 0, 50, 2, 2, 100, 0, 50, 2), cfg(1, 255, 1, 100, 3, 2, 10, 0, 1, 2)):
+        seq = ["xg", "xh", "dn", "up"]
+        for a1 in seq:
+            for a2 in seq:
+                for a3 in ("xg", "xh"):
+                    for w in W:
+                        cases.append(" ".join([c, "st0", "st1", "%s%s:0" % (a1, w), "%s%s:1" % (a2, w), "%s%s:0" % (a3, w),
+                                               "xg%s:1" % w, "xh%s:1" % w, "xh%s:0" % w]))
     # (7) checkPeerTimeout: all 16 input combinations from every warm state, on both nodes, one and two groups
     #     (hasWaitingSRGs is node-global: a WAITING group makes the tick hit the other group too)
     for c in (cfg(1, 200, 0, 50, 2, 2, 100, 0, 50, 2), cfg(2, 100, 1, 0, 0, 1, 100, 0, 0, 0)):
